@@ -153,10 +153,11 @@ class C12Hooks(Hooks):
         self.sy, self.found, self.rule, self.ids = sy, found, rule, ids
 
     def pre_call(self, n, cf, args, st):
-        if self.ids is not None:
-            for p, a in zip(cf.get('params', []), args):
-                if any(self.sy.mentions_var(a, i) for i in list(self.ids)):
-                    self.ids.add(p['id'])
+        for p, a in zip(cf.get('params', []), args):
+            if self.sy.is_star_this(a):
+                self.sy.this_alias.add(p['id'])     # a helper (object) that works on the analysed object through a reference
+            if self.ids is not None and any(self.sy.mentions_var(a, i) for i in list(self.ids)):
+                self.ids.add(p['id'])
         return [st]
 
     def problem(self, msg, n):
@@ -298,7 +299,10 @@ def check_guarded(ctx, tu, sy, rec, T, f, counts):
                 found.und(R1, 'member function %s is not classified as producer or consumer side but touches %s' % (name, fld[1]), n)
         return [st]
 
-    res, _outs = inl.explore(f, [(frozenset(), frozenset())], transfer, None, C12Hooks(sy, found, R1))
+    def refine(blk, si, st):
+        return [LockState.refine_try(sy, blk, si, st[0], st[1])]
+
+    res, _outs = inl.explore(f, [(frozenset(), frozenset())], transfer, refine, C12Hooks(sy, found, R1))
     counts[R1] += 1
     inst = '%s %s' % (f['q'].replace('rkcommon::containers::', '').replace('rkcommon::utility::', ''), f['fty'])
     emit(ctx, tu, g, res, found, inst, (R1,), tu.fn_loc(f), {R1: '%d access(es) to guarded/confined members, all permitted' % nacc[0]})
@@ -984,6 +988,8 @@ def check_assign(ctx, tu, sy, f, counts):
             found.viol(R4, FN, 'flag-without-value', 'assignment sets the flag in a lock scope that does not store the value', node)
         return (locks, known, False, False, done or (q and fl))
 
+    throwers = []       # value stores of this assignment that can throw
+
     def may_throw(node):
         """can the value store leave by an exception?  (built-in assignment cannot; a call can unless declared noexcept)"""
         if node.get('kind') in ('CXXOperatorCallExpr', 'CXXMemberCallExpr', 'CallExpr'):
@@ -1013,11 +1019,27 @@ def check_assign(ctx, tu, sy, f, counts):
             _k, fld, val, order, node = ev
             if fld == FLAG:
                 if val is True:
+                    dframes = [x for x in inl.stack if x.get('dtor')]
+                    if dframes:
+                        # raised by the destructor of a scope object: that destructor also runs when the scope is left by an
+                        # exception, i.e. when the value store did not complete
+                        dg = tu.cfg(dframes[-1])
+                        branching = any(len([t for t in b_.succ if t is not None]) > 1 for b_ in dg.blocks.values())
+                        if branching:
+                            found.und(R4, 'the flag is raised conditionally inside the destructor %s: not modelled' % dframes[-1]['q'], node)
+                        elif throwers:
+                            found.viol(R4, FN, 'flag-raised-on-unwind', 'the flag is raised by the destructor of a scope object (%s), which '
+                                       'also runs during stack unwinding: when the value store %s throws, the flag is set although '
+                                       'queuedValue was not assigned (it still holds the moved-from remains of the previous update()); '
+                                       'the next update() returns true and installs a value nobody assigned'
+                                       % (dframes[-1]['q'].replace('rkcommon::utility::', ''), throwers[0]), node)
                     return [(locks, known, q, True, done)]
                 found.und(R4, 'assignment stores something other than true to the flag', node)
             elif fld == QUEUED:
                 w = sy.plain_write(node)
                 if w is not None and params and mentions_any(sy, w[2], params):
+                    if may_throw(node):
+                        throwers.append('(%s)' % (tu.sd(node).get('q') or 'payload assignment'))
                     if fl and not q and may_throw(node):
                         found.viol(R4, FN, 'flag-raised-before-value-stored', 'the flag is already raised when the value is stored into '
                                    'queuedValue, and this store can throw (%s): if it does, the producer leaves the critical section with '
@@ -1111,7 +1133,31 @@ def uninstantiated_members(tu, rec):
             and not f.get('ctor') and not f.get('dtor') and tu.body(f) is not None]
 
 
-def lexical_lock(tu, sy, f, n, mutex):
+def helper_lock_classes(tu, T):
+    """names of classes (defined anywhere in the unit) that hold a lock_guard / unique_lock / scoped_lock member which one of their
+    constructors initialises from a member called like the class mutex: a local of such a class is a lock scope"""
+    cache = tu.__dict__.setdefault('_c12_helper_locks', {})
+    if T['mutex'] in cache:
+        return cache[T['mutex']]
+    out = set()
+    for top in tu.decls:
+        for x in tu.walk(top):
+            if x.get('kind') != 'CXXRecordDecl' or not x.get('name'):
+                continue
+            ks = tu.kids(x)
+            if not any(k.get('kind') == 'FieldDecl' and any(l in (k.get('type', {}).get('qualType') or '') for l in
+                                                          ('lock_guard<', 'unique_lock<', 'scoped_lock<')) for k in ks):
+                continue
+            for c in ks:
+                if c.get('kind') == 'CXXConstructorDecl' and any(
+                        y.get('kind') in ('MemberExpr', 'CXXDependentScopeMemberExpr') and (y.get('name') == T['mutex'] or y.get('member') == T['mutex'])
+                        for y in tu.walk(c)):
+                    out.add(x['name'])
+    cache[T['mutex']] = out
+    return out
+
+
+def lexical_lock(tu, sy, f, n, mutex, T=None):
     """is n inside the lexical scope of a lock variable on `mutex`?  True / False / None (a unique_lock that is unlocked by hand)"""
     x = n
     for _ in range(60):
@@ -1123,6 +1169,12 @@ def lexical_lock(tu, sy, f, n, mutex):
                 if sib is x or sib.get('id') == x.get('id'):
                     break
                 if sib.get('kind') == 'DeclStmt':
+                    for v_ in tu.kids(sib):
+                        # a scope object of a helper class that takes the mutex in its constructor, built from *this
+                        if T is not None and v_.get('kind') == 'VarDecl' and \
+                                (v_.get('type', {}).get('qualType') or '').split('::')[-1] in helper_lock_classes(tu, T) and \
+                                any(y.get('kind') == 'CXXThisExpr' for y in tu.walk(v_)):
+                            return True
                     for var, m, held, _v in sy.lock_decl(sib):
                         if m == mutex and held:
                             manual = any(y.get('kind') == 'CXXMemberCallExpr' and last(tu.sd(y).get('q')) in ('unlock', 'release')
@@ -1147,7 +1199,7 @@ def pattern_accesses(tu, sy, rec, T, members):
             fld = sy.field(n)
             if fld is None or fld[0] != rec or fld[1] not in members or not sy.base_is_this(n):
                 continue
-            out.append((f, f, lexical_lock(tu, sy, f, n, mutex), access_kind(tu, sy, n), n))
+            out.append((f, f, lexical_lock(tu, sy, f, n, mutex, T), access_kind(tu, sy, n), n))
     return out
 
 
@@ -1179,6 +1231,93 @@ def check_uninstantiated(ctx, tu, sy, rec, T, counts):
             ctx.ok(R1, inst, '%d access(es) to guarded members, all inside a lock scope' % len(accs), tu.fn_loc(f), nontrivial=bool(accs))
 
 
+def check_mirrors(ctx, tu, sy, rec, T, counts):
+    """R-C12-2 (cached mirrors): an atomic member that some member function fills from a guarded member (`cache = buffer.size()`)
+    is a cached view of that member which others read without the lock.  Every public member that changes the guarded member
+    has to refresh the cache before it releases the mutex; otherwise a reader gets a value that describes a state the container
+    left long ago (a torn / stale observation)."""
+    inl = inliner(tu, T)
+    mutex = (rec, T['mutex'])
+    pubs = [f for f in tu.functions.values() if not f['dep'] and f.get('rec') == rec and tu.cfg(f) is not None
+            and not f.get('ctor') and not f.get('dtor') and is_public(f)]
+    mirrors = {}        # mirror member -> guarded member it is computed from
+    for f in pubs:
+        for fn in inl.reachable_fns(f):
+            for _b, _i, n in tu.cfg(fn).stmts():
+                a = sy.atomic_op(n)
+                if a is None or a['op'] != 'store' or a['field'] is None or a['field'][0] != rec or a['field'][1] in TABLE[rec]['guarded']:
+                    continue
+                _s, _o, args = tu.call_parts(n)
+                for gname in TABLE[rec]['guarded']:
+                    if args and sy.mentions_field(args[0], (rec, gname)) and not is_atomic_type(sy.field_type(args[0])):
+                        mirrors[a['field'][1]] = gname
+    for f in pubs:
+        if not mirrors:
+            break
+        g = tu.cfg(f)
+        found = Found(T['file'], inl)
+        FN = fn_short(f)
+
+        def mutated(n):
+            """guarded member changed by this element"""
+            for gname in set(mirrors.values()):
+                fld = (rec, gname)
+                bc = buffer_call(tu, sy, n, fld)
+                if bc is not None and not bc[2] and (bc[0] in APPEND or bc[0] in DESTRUCTIVE or bc[0] in ('insert', 'emplace')):
+                    return gname
+                if n.get('kind') == 'CallExpr' and tu.sd(n).get('q') in ('std::move', 'std::swap') and \
+                        any(is_buffer(tu, sy, x, fld) for x in tu.kids(n)[1:]):
+                    return gname
+                if n.get('kind') in ('CXXMemberCallExpr', 'CXXOperatorCallExpr'):
+                    s_, obj, args = tu.call_parts(n)
+                    if last(s_.get('q')) in ('swap', 'operator=') and args and obj is not None and sy.local_var(obj) is not None and \
+                            is_buffer(tu, sy, args[0], fld) and (last(s_.get('q')) == 'swap' or is_move(tu, sy, n)):
+                        return gname
+            return None
+
+        def leave(st, node):
+            for m in sorted(st[2]):
+                found.viol(R2, FN, 'mirror-%s-stale' % m, '%s changes %s but releases %s without refreshing the cached %s (which other '
+                           'members fill from %s and hand out without the lock): a later reader that does not get the lock reports '
+                           'a state the container left long ago' % (last(f['q']), mirrors[m], T['mutex'], m, mirrors[m]), node)
+            return (st[0], st[1], frozenset())
+
+        # state: (locks, known, stale mirrors)
+        def transfer(blk, i, e, st):
+            locks, known, dirty = st
+            ev = sy.event(e)
+            n = tu.node(e[1]) if e[0] == 'S' else None
+            if ev is not None and ev[0] in LOCK_EVENTS:
+                locks2, known2, _p = LockState.apply(locks, known, ev)
+                st2 = (locks2, known2, dirty)
+                if LockState.holds(locks, mutex) and not LockState.holds(locks2, mutex) and dirty:
+                    st2 = leave(st2, n)
+                return [st2]
+            if n is None:
+                return [st]
+            a = sy.atomic_op(n)
+            if a is not None and a['op'] in ('store', 'rmw') and a['field'] is not None and a['field'][0] == rec and a['field'][1] in mirrors:
+                return [(locks, known, frozenset(set(dirty) - {a['field'][1]}))]
+            gname = mutated(n)
+            if gname is not None:
+                return [(locks, known, frozenset(set(dirty) | {m for m, g_ in mirrors.items() if g_ == gname}))]
+            return [st]
+
+        def refine(blk, si, st):
+            l2, k2 = LockState.refine_try(sy, blk, si, st[0], st[1])
+            return [(l2, k2, st[2])]
+
+        res, outs = inl.explore(f, [(frozenset(), frozenset(), frozenset())], transfer, refine, C12Hooks(sy, found, R2))
+        for (st, _rv, via) in outs:
+            if st[2]:
+                leave(st, None)
+        counts[R2] += 1
+        inst = '%s %s (cached %s)' % (f['q'].replace('rkcommon::containers::', '').replace('rkcommon::utility::', ''), f['fty'],
+                                      ', '.join(sorted(mirrors)))
+        emit(ctx, tu, g, res, found, inst, (R2,), tu.fn_loc(f), {R2: 'every change of the mirrored member is followed by a refresh of '
+                                                                     'its cache inside the critical section'})
+
+
 def extra_member_accesses(tu, sy, rec, T, member):
     """every access to this->member in the public members (helpers followed, lock state carried):
     [(entry function, function of the access, lock held?, kind 'read'|'write'|'load'|'store'|'rmw-unused'|'rmw', node)]"""
@@ -1203,7 +1342,8 @@ def extra_member_accesses(tu, sy, rec, T, member):
             out.append((f, cur, LockState.holds(locks, mutex), access_kind(tu, sy, n), n))
             return [st]
 
-        inl.explore(f, [(frozenset(), frozenset())], transfer, None, C12Hooks(sy, found, R1))
+        inl.explore(f, [(frozenset(), frozenset())], transfer, lambda blk, si, st: [LockState.refine_try(sy, blk, si, st[0], st[1])],
+                    C12Hooks(sy, found, R1))
     out += pattern_accesses(tu, sy, rec, T, {member})      # new members the driver does not instantiate
     return out
 
@@ -1505,6 +1645,7 @@ def check_tu(ctx, tu, counts):
             elif name == 'operator=':
                 check_assign(ctx, tu, sy, f, counts)
         check_uninstantiated(ctx, tu, sy, rec, T, counts)
+        check_mirrors(ctx, tu, sy, rec, T, counts)
 
 
 def run(ctx):
